@@ -146,17 +146,33 @@ var knownExtensions = map[string]bool{
 	OidExtPrivKeyUsage: true, OidExtSubjectAltName: true, OidExtIssuerAltName: true, OidExtCRLDP: true, OidExtCertPolicies: true,
 }
 
-func nameCountry(n *ber.Node) string {
+// nameCountry returns the first countryName of a Name.  The Name must be well
+// formed (SEQUENCE of non-empty SETs of two-element SEQUENCEs starting with an
+// OID); anything else is an error, so that the harness never judges a
+// certificate whose name it reads differently from another parser.
+func nameCountry(n *ber.Node) (string, error) {
+	if n.Tag != der.TagSequence {
+		return "", errors.New("Name: SEQUENCE expected")
+	}
+	country, found := "", false
 	for _, rdn := range n.Children {
+		if rdn.Tag != der.TagSet || len(rdn.Children) == 0 {
+			return "", errors.New("RDN: non-empty SET expected")
+		}
 		for _, atv := range rdn.Children {
-			if len(atv.Children) == 2 {
-				if o, err := oidOf(atv.Children[0]); err == nil && o == OidCountry {
-					return string(atv.Children[1].Value)
-				}
+			if atv.Tag != der.TagSequence || len(atv.Children) != 2 || atv.Children[1].Constructed {
+				return "", errors.New("AttributeTypeAndValue: SEQUENCE { OID, primitive value } expected")
+			}
+			o, err := oidOf(atv.Children[0])
+			if err != nil {
+				return "", err
+			}
+			if o == OidCountry && !found {
+				country, found = string(atv.Children[1].Value), true
 			}
 		}
 	}
-	return ""
+	return country, nil
 }
 
 // ParseCertificate reads a certificate strictly (one element, all consumed).
@@ -210,7 +226,10 @@ func ParseCertificate(in []byte) (*CertInfo, error) {
 	if c.TBSSigAlgOID, err = oidOf(k[i+1].Children[0]); err != nil {
 		return nil, err
 	}
-	c.IssuerDER, c.IssuerCountry = raw(in, k[i+2]), nameCountry(k[i+2])
+	c.IssuerDER = raw(in, k[i+2])
+	if c.IssuerCountry, err = nameCountry(k[i+2]); err != nil {
+		return nil, err
+	}
 	val := k[i+3]
 	if val.Tag != der.TagSequence || len(val.Children) != 2 {
 		return nil, errors.New("validity")
@@ -221,7 +240,10 @@ func ParseCertificate(in []byte) (*CertInfo, error) {
 	if c.NotAfter, err = ParseTime(val.Children[1].Tag, val.Children[1].Value); err != nil {
 		return nil, err
 	}
-	c.SubjectDER, c.SubjectCountry = raw(in, k[i+4]), nameCountry(k[i+4])
+	c.SubjectDER = raw(in, k[i+4])
+	if c.SubjectCountry, err = nameCountry(k[i+4]); err != nil {
+		return nil, err
+	}
 	c.SPKI = raw(in, k[i+5])
 	for _, n := range k[i+6:] {
 		if n.Tag != 0xA3 {
